@@ -5,24 +5,25 @@ vectors / clamping / options) + correspondence of the modelled functions with th
 model_auto.cpp / foxleg.cpp are compiled into the harness from the current source text) + post-condition oracle on
 Model::fit / Model::fitFromVMap / ModelOptimSillsVario::fit / ModelOptimVario::fit + optional trace hook (hooks/C17.patch).
 
-Defects of the pinned tree reproduced by this check (keys -> cause -> candidate fix in /verif/fixes):
-  *:multi:goulard:constant-sill*:sill-undefined, ...:constant-sill:zero-total-sill:kriging-undefined-results
-        constant sill with several variables: fill(0.) inside the loop on variables wipes the diagonal            C17_1
-  *:intrinsic:crash                 option flag_intrinsic: sill1 never allocated, "alphau[icov] = value" builds a 0x0 matrix,
-                                    second Goulard pass indexes a (nvs2 x npadir) matrix as (1 x nvs2*npadir)                  C17_2
-  *:multi:*:exception-length-error  negative return of st_model_auto_count / st_vmap_auto_count not tested
-                                    (several variables without Goulard; variogram map with several variables)               C17_3
-  *:pair-without-valid-lag:sill-undefined   a pair of variables without any valid lag: 1/0 and 0/0 in the Goulard steps   C17_4
-  *:constraint:after-reduction:not-satisfied  bounds wiped when a structure is dropped after a non-converged run         C17_5
-  ModelOptim*::fit:empty-lag:crash  heap overflow in ModelOptimSillsVario::_compressArray when a lag is empty              C17_6
-  Model::fitFromVMap:isotropy-asked:ranges-differ, :rotation-locked:angles-changed   st_alter_vmap_optvar forces both     C17_7
-  *:constraint-sill:no-goulard:not-satisfied  sill constraints applied to the square root when the user switched Goulard off  C17_8
-  Model::fit:constraint-on-parameter-not-inferred:not-satisfied   constraint on an angle / anisotropy range that the library
-                                    decides not to infer is dropped silently                                              C17_9 (angles only)
-  Model::fit:exception-null-ellipsoid-radius (occasional)  third parameter of a Stable structure near its lower bound 0.001:
-                                    the scale underflows, Tensor throws, the exception leaves Model::fit                   C17_10
-  *:zero-total-sill / :singular-total-sill:kriging-undefined-results (occasional)  the PSD projection returns rank-deficient
-                                    (or zero) sills on tiny data sets: PSD, yet isotopic cokriging is singular            (no fix)
+Defects found on the pinned tree, all repaired in /repo (fixes/C17_1 .. C17_10); the model follows the repaired code and
+corpus/C17.sx + the directed scenarios keep one regression case per defect, which fires with the key below if the repair is undone:
+  *:multi:goulard:constant-sill*:sill-undefined            constant sill, several variables (fill(0.) inside the variable loop)   C17_1
+  *:intrinsic:crash                                        option flag_intrinsic (work sills never allocated, wrong indexing)       C17_2
+  *:multi:*:exception-length-error                         negative parameter count not tested                                      C17_3
+  *:pair-without-valid-lag:sill-undefined                  pair of variables without valid lag: 1/0, 0/0 in the Goulard steps       C17_4
+  *:constraint:after-reduction:not-satisfied               bounds wiped after a reduction following a non-converged run             C17_5
+  ModelOptim*::fit:empty-lag:crash                         heap overflow in ModelOptimSillsVario::_compressArray                    C17_6
+  Model::fitFromVMap:isotropy-asked:ranges-differ, :rotation-locked:angles-changed   options overridden by st_alter_vmap_optvar    C17_7
+  *:constraint-sill:no-goulard:not-satisfied               sill constraint applied to the square root                               C17_8
+  Model::fit:constraint-on-parameter-not-inferred:not-satisfied (angle half)                                                        C17_9
+  Model::fit:exception-null-ellipsoid-radius               Tensor exception leaving Model::fit                                      C17_10
+Known findings that remain (deterministic: directed scenario or corpus case for each):
+  Model::fit:constraint-on-parameter-not-inferred:not-satisfied     a constraint on an anisotropy range the library decides not to infer
+                                                                    (one direction, or isotropy forced by the geometry) is dropped silently
+  Model::fit / ModelOptimSillsVario::fit / ModelOptimVario::fit :zero-total-sill:kriging-undefined-results,
+  Model::fit:singular-total-sill:kriging-undefined-results         degenerate data: the fitted model is PSD but a variable has a zero total
+                                                                    sill / the total sill matrix is singular, kriging returns undefined values
+  ModelOptimVario::fit:no-termination                               nugget effect alone, Goulard off: nlopt never returns (15 s limit in the check)
 """
 import sys, os, math, itertools, random
 sys.path.insert(0, os.path.dirname(__file__))
